@@ -12,7 +12,9 @@ RULE = ("grid: spec (affine and nonlinear rows, violated at the evaluation point
         "x ALL 2^n active sets (set through update_active_set) x step solver 4 x linear solver {LU, GMRES, MINRES with Symmetric}; oracle = "
         "numpy.linalg.solve on the dense reference Jacobian of the implicit-Euler residual, compared after the same box clipping; plus "
         "first-step equality of Simplified/Full/ActiveSet and one-step exactness on QP/affine specs; distinct = (spec, point, dt, rho, active set) "
-        "with a non-empty active set or a violated nonlinear row")
+        "with a non-empty active set or a violated nonlinear row; the active set selected by the rule (default, tau=dt/4, dt, 4dt) at the base and at a "
+        "later Newton iterate, per step solver, against p(tau) = x - tau((x-x0)/dt + grad L); indefinite QPs with an inertia-revealing linear "
+        "solver and inertia_correction: Newton step for the requested dt when the inertia is right, failure when it is wrong")
 ASSUMPTIONS = ["direct solver tolerance 1e-10*cond(F'), iterative solvers 20*cond(F')*max(1e-8, 1e-5*|rhs|) (their stated stopping rule)",
                "systems with reference condition number above 1e6 are counted but not compared",
                "a LinearSolverError/StepSolverError raised by an iterative solver is a loud failure, not a disagreement"]
@@ -43,6 +45,11 @@ def cases(tier, seed):
         for (ri, rho) in enumerate(RHOS):
             for (di, dt) in enumerate(DTS):
                 out.append({"vk": vk, "obj": obj, "rows": [list(r) for r in rows], "rho": rho, "dt": dt})
+    # inertia-revealing linear solver + inertia_correction (symmetric step solver): step for THIS dt, or failure
+    for hi in range(3):
+        for rows in ([], [["affine", "eq0"]], [["sphere", "upper"]]):
+            for dt in (2.0, 1.0, 0.5, 0.125):
+                out.append({"inertia": True, "hi": hi, "rows": rows, "rho": 1.0, "dt": dt})
     for pattern in ("boxed", "mixed"):
         for k in ((0, 2) if tier == "quick" else range(5)):
             for rho in RHOS:
@@ -114,9 +121,115 @@ def large_case(case):
     return {"outcome": "agree" if not viol else "violating", "key": keys, "violations": vs, "stats": stats}
 
 
+class _InertiaSolver:
+    """LU with the inertia of the (symmetric) matrix attached, as the native symmetric-indefinite solvers report it."""
+
+    def __init__(self, inner, mat):
+        self.inner = inner
+        self.neg = int((np.linalg.eigvalsh(mat.toarray()) < 0).sum())
+
+    def solve(self, rhs, trans=False, initial_sol=None):
+        return self.inner.solve(rhs, trans=trans, initial_sol=initial_sol)
+
+    def num_neg_eigvals(self):
+        return self.neg
+
+    def __getattr__(self, name):
+        return getattr(self.inner, name)
+
+
+INDEF = [[[1.0, 0.0], [0.0, -3.0]], [[-1.0, 2.0], [2.0, 1.0]], [[2.0, 0.5], [0.5, 1.0]]]
+
+
+def inertia_case(case):
+    import pygradflow.linear_solver as pls
+    from pygradflow.iterate import Iterate
+    from pygradflow.step.solver import step_solver
+    from pygradflow.step.step_solver_error import StepSolverError
+    from pygradflow.transform import Transformation
+    from pgfmc.drive import grid as G
+    from pgfmc.drive.problems import UserProblem
+    from pgfmc.drive.run import make_params
+
+    rows = [S.row(r[0], r[1], 2) for r in case["rows"]] if case["rows"] else []
+    spec = G.raw(2, {"H": INDEF[case["hi"]], "g": [0.5, -1.0]}, rows, [-2.0, "-inf"], [2.0, 1.5], [0.25, -0.5], f"indef{case['hi']}|{case['rows']}")
+    rho, dt = case["rho"], case["dt"]
+    prob = UserProblem(spec)
+    F = O.Funcs(spec)
+    T = O.RefTrans(F)
+    params = make_params({"step_solver": "Symmetric", "params": {"inertia_correction": True}})
+    tr = Transformation(prob, params)
+    P, ev = tr.trans_problem, tr.evaluator
+    m = T.m
+    viol, keys = [], []
+    stats = {"solves": 0, "compared": 0, "inertia_refused": 0}
+    orig = pls.linear_solver
+    made = []
+
+    def factory(mat, solver_type, symmetric=False):
+        sv_ = _InertiaSolver(orig(mat, solver_type, symmetric=symmetric), mat)
+        made.append(sv_)
+        return sv_
+
+    pls.linear_solver = factory
+    try:
+        for xb in (np.clip(np.array([0.2, -0.3, 0.1][: T.n]), T.var_lb, T.var_ub), np.clip(np.array([3.0, -3.0, 2.0][: T.n]), T.var_lb, T.var_ub)):
+            for y in (np.array([1.5, -2.0][:m]), np.zeros(m)):
+                R0 = O.RefPoint(T, xb, y)
+                for bits in itertools.product([False, True], repeat=T.n):
+                    A = np.array(bits, dtype=bool)
+                    Jm = O.implicit_jac(T, R0, rho, dt, A)
+                    cond = np.linalg.cond(Jm)
+                    if not np.isfinite(cond) or cond > 1e6:
+                        continue
+                    s_ = np.linalg.solve(Jm, O.implicit_value(T, (xb, y), R0, rho, dt, A))
+                    xn = np.clip(xb - s_[: T.n], T.var_lb, T.var_ub)
+                    yn = y - s_[T.n:]
+                    it0 = Iterate(P, params, xb, y, ev)
+                    del made[:]
+                    stats["solves"] += 1
+                    at = {"base": xb.tolist(), "y0": y.tolist(), "active": [int(b) for b in bits], "rho": rho, "dt": dt}
+                    try:
+                        with np.errstate(all="ignore"):
+                            sv = step_solver(P, params, it0, dt, rho)
+                            sv.update_active_set(A)
+                            sv.update_derivs(it0)
+                            res = sv.solve(it0)
+                        failed = False
+                    except StepSolverError:
+                        failed = True
+                    if not made:
+                        continue
+                    # the inertia that counts is that of the FIRST matrix built for the requested step size
+                    wrong = made[0].neg != m
+                    keys.append(f"{spec['tag']}|{at['active']}|{dt}|{xb.tolist()}|{y.tolist()}")
+                    if wrong:
+                        stats["inertia_refused"] += 1
+                        if not failed:
+                            viol.append({"sig": "C14|inertia|wrong_inertia_not_refused", "msg": f"matrix for dt={dt} has {made[0].neg} negative eigenvalues (m={m}) but the "
+                                         f"step solver returned a step instead of failing ({len(made)} factorisations) at {at}", "detail": at})
+                        continue
+                    if failed:
+                        viol.append({"sig": "C14|inertia|refused_correct_inertia", "msg": f"matrix has the right inertia but the step solver failed at {at}", "detail": at})
+                        continue
+                    err = max(float(np.max(np.abs(res.iterate.x - xn))), float(np.max(np.abs(res.iterate.y - yn), initial=0.0)))
+                    stats["compared"] += 1
+                    if not np.isfinite(err) or err > 1e-10 * cond * max(1.0, float(np.max(np.abs(s_)))):
+                        viol.append({"sig": "C14|inertia|step", "msg": f"step differs from the dense Newton step for dt={dt} by {err:.3e} at {at}", "detail": at})
+    finally:
+        pls.linear_solver = orig
+    seen, vs = set(), []
+    for v in viol:
+        if v["sig"] not in seen:
+            seen.add(v["sig"]); vs.append(v)
+    return {"outcome": "agree" if not viol else "violating", "key": keys, "violations": vs, "stats": stats}
+
+
 def run_case(case):
     if case.get("large"):
         return large_case(case)
+    if case.get("inertia"):
+        return inertia_case(case)
     from pygradflow.iterate import Iterate
     from pygradflow.newton import newton_method
     from pygradflow.step.solver import step_solver
@@ -255,6 +368,30 @@ def run_case(case):
                         if err_t > 1e-10 * ct * max(1.0, float(np.max(np.abs(s_t)))):
                             bad("first_step|reference", f"first Simplified step with tau={tau} differs from the dense step for the rule's active set {A_t.astype(int).tolist()} by {err_t:.3e}",
                                 {"base": xb.tolist(), "y0": y.tolist(), "rho": rho, "dt": dt, "tau": tau})
+            # the active set the rule selects at the base AND at a later Newton iterate (x != x0), for every step solver:
+            # p(tau) = x - tau * ((x - x0) / dt + grad_x L_rho(x, y)),  tau = dt by default
+            for ss_ in ("Standard", "Extended", "Symmetric", "Asymmetric"):
+                params, P, ev = P_of(ss_, "LU")
+                it0 = Iterate(P, params, xb, y, ev)
+                with np.errstate(all="ignore"):
+                    sv = step_solver(P, params, it0, dt, rho)
+                for (xe, ye) in evals:
+                    ite = Iterate(P, params, xe, ye, ev)
+                    Re = O.RefPoint(T, xe, ye)
+                    for tau in (None, 0.25 * dt, dt, 4.0 * dt):
+                        tt = dt if tau is None else tau
+                        p_t = xe - tt * ((xe - xb) / dt + Re.dx(rho))
+                        amb = 1e-8 * max(1.0, dt) + 1e-9 * max(1.0, float(np.max(np.abs(p_t))))
+                        if (np.abs(p_t - T.var_lb) <= amb).any() or (np.abs(p_t - T.var_ub) <= amb).any():
+                            continue
+                        with np.errstate(all="ignore"):
+                            A_impl = np.asarray(sv.func.compute_active_set(ite, rho, tau), dtype=bool)
+                        A_ref = (p_t < T.var_lb) | (p_t > T.var_ub)
+                        stats["rule_sets"] = stats.get("rule_sets", 0) + 1
+                        if not np.array_equal(A_impl, A_ref):
+                            bad(f"rule_active_set|{ss_}", f"active set selected with tau={tau} at a Newton iterate is {A_impl.astype(int).tolist()}, "
+                                f"reference {A_ref.astype(int).tolist()} (p={p_t.tolist()})",
+                                {"base": xb.tolist(), "y0": y.tolist(), "x": xe.tolist(), "y": ye.tolist(), "rho": rho, "dt": dt, "tau": tau})
             # sequences of steps on ONE method object: iterates whose natural active sets alternate (A, B, A, C)
             near1 = np.clip(xb + 0.03125 * np.resize(np.array([1.0, -1.0, 0.5]), T.n), T.var_lb, T.var_ub)
             near2 = np.clip(xb - 0.0625 * np.resize(np.array([0.5, 1.0, -1.0]), T.n), T.var_lb, T.var_ub)
@@ -331,7 +468,7 @@ def run_case(case):
 
 def summarize(cases_, results, tier):
     out = {}
-    for k in ("solves", "compared", "illcond", "solver_failed", "exact_checked", "first_step", "iter_missed_tol", "seq_steps"):
+    for k in ("solves", "compared", "illcond", "solver_failed", "exact_checked", "first_step", "iter_missed_tol", "seq_steps", "rule_sets", "inertia_refused"):
         out[k] = sum(r["stats"].get(k, 0) for r in results)
     return out
 
@@ -343,4 +480,8 @@ def vacuity(cases_, results, tier):
         out.append("fewer than 1000 step comparisons")
     if s["exact_checked"] < 10:
         out.append("QP one-step exactness never exercised")
+    if s["rule_sets"] < 1000:
+        out.append("fewer than 1000 rule-selected active sets compared")
+    if s["inertia_refused"] < 20:
+        out.append("fewer than 20 systems with the wrong inertia")
     return out
